@@ -11,6 +11,7 @@ Qualifier Association : boolean = false, Scope(association), Flavor(DisableOverr
 class TST_P { [Key] string name; uint32 v; };
 class TST_Q : TST_P { string extra; };
 [Association] class TST_L { [Key] TST_P REF parent; [Key] TST_P REF child; };
+[Association] class TST_M : TST_L { uint32 w; };
 '''
 
 NSS = ['root/a', 'root/b']
@@ -40,22 +41,71 @@ def build_conn(n_per_ns, rng):
             inst.path = pywbem.CIMInstanceName(cls, keybindings={'name': 'p%d' % i}, namespace=ns)
             insts.append(inst)
         conn.add_cimobjects(insts, namespace=ns)
-        # star of associations around p0 so that References/Associators of p0 have n-1 results
+        # star of associations around p0 so that References/Associators of p0 have at least n-1 results; every
+        # 4th is of the subclass TST_M, and every 5th neighbour also links back with p0 in the OTHER role, so that
+        # Role / ResultRole / AssocClass / ResultClass filters select proper, different subsets
+        assocs = []
         for i in range(1, n):
-            a = pywbem.CIMInstance('TST_L', properties={
-                'parent': insts[0].path, 'child': insts[i].path})
-            a.path = pywbem.CIMInstanceName('TST_L', keybindings={
-                'parent': insts[0].path, 'child': insts[i].path}, namespace=ns)
-            conn.add_cimobjects([a], namespace=ns)
+            ends = [(insts[0].path, insts[i].path)]
+            if i % 5 == 1:
+                ends.append((insts[i].path, insts[0].path))
+            for (pa, ch) in ends:
+                cn = 'TST_M' if i % 4 == 0 else 'TST_L'
+                a = pywbem.CIMInstance(cn, properties={'parent': pa, 'child': ch})
+                if cn == 'TST_M':
+                    a['w'] = pywbem.Uint32(i)
+                a.path = pywbem.CIMInstanceName(cn, keybindings={'parent': pa, 'child': ch}, namespace=ns)
+                assocs.append(a)
+        conn.add_cimobjects(assocs, namespace=ns)
     return conn
 
 
 def obj_key(o):
+    """identity of a delivered object: its path without host and, for instances, the content (class, property
+    names/types/values) -- so 'exactly the result of the traditional operation' is compared on content too"""
     import pywbem
     p = o.path if isinstance(o, pywbem.CIMInstance) else o
     q = p.copy()
     q.host = None
-    return q.to_wbem_uri(format='canonical')
+    k = q.to_wbem_uri(format='canonical')
+    if isinstance(o, pywbem.CIMInstance):
+        props = sorted((n.lower(), pr.type, pr.is_array, repr(pr.value)) for n, pr in o.properties.items())
+        k += '|' + o.classname.lower() + '|' + repr(props)
+    return k
+
+
+# filter arguments common to an Open operation and its traditional counterpart
+FILTER_ARGS = {
+    'OpenEnumerateInstances': ['DeepInheritance', 'PropertyList'],
+    'OpenEnumerateInstancePaths': [],
+    'OpenReferenceInstances': ['ResultClass', 'Role', 'PropertyList'],
+    'OpenReferenceInstancePaths': ['ResultClass', 'Role'],
+    'OpenAssociatorInstances': ['AssocClass', 'ResultClass', 'Role', 'ResultRole', 'PropertyList'],
+    'OpenAssociatorInstancePaths': ['AssocClass', 'ResultClass', 'Role', 'ResultRole'],
+}
+ARG_VALUES = {
+    'DeepInheritance': [True, False],
+    'PropertyList': [['name'], ['v'], ['NAME', 'extra'], [], ['parent'], ['child', 'w']],
+    'Role': ['parent', 'child', 'PARENT', 'nosuchrole'],
+    'ResultRole': ['parent', 'child', 'Child', 'nosuchrole'],
+    'AssocClass': ['TST_L', 'TST_M', 'tst_l'],
+    'ResultClass': None,   # depends on the operation, see gen_args
+}
+
+
+def gen_args(rng, method):
+    args = {}
+    if rng.random() < 0.55:
+        return args
+    for a in FILTER_ARGS[method]:
+        if rng.random() < 0.5:
+            continue
+        if a == 'ResultClass':
+            vals = ['TST_L', 'TST_M', 'tst_m'] if 'Reference' in method else ['TST_P', 'TST_Q', 'tst_q']
+        else:
+            vals = ARG_VALUES[a]
+        args[a] = rng.choice(vals)
+    return args
 
 
 class Real:
@@ -63,21 +113,26 @@ class Real:
 
     def __init__(self, n_per_ns, rng):
         self.conn = build_conn(n_per_ns, rng)
-        self.ctxmap = {}     # real context string -> model id (creation order)
+        self.ctxmap = {}     # real context string -> model id of the LATEST session opened with that string
         self.ids = {}        # object key -> small int
-        self.ctx_real = {}   # model id -> (ctxstr, namespace)
+        self.ctx_real = {}   # model id -> (ctxstr, namespace); one model id per Open that returned a context
+        self.nctx = 0
 
     def oid(self, o):
         k = obj_key(o)
         return self.ids.setdefault(k, len(self.ids) + 1)
 
-    def traditional(self, method, ns, src):
+    def traditional(self, method, ns, src, args=None):
         import pywbem
         c = self.conn
+        kw = dict(args or {})
+        if method == 'EnumerateInstances':
+            # the pull operation has no LocalOnly (DSP0200: deprecated, servers treat it as false)
+            kw['LocalOnly'] = False
         if method in ('EnumerateInstances', 'EnumerateInstanceNames'):
-            return [self.oid(o) for o in getattr(c, method)('TST_P', namespace=ns)]
+            return [self.oid(o) for o in getattr(c, method)('TST_P', namespace=ns, **kw)]
         p = pywbem.CIMInstanceName('TST_P', keybindings={'name': src}, namespace=ns)
-        return [self.oid(o) for o in getattr(c, method)(p)]
+        return [self.oid(o) for o in getattr(c, method)(p, **kw)]
 
     def exc(self, e):
         import pywbem
@@ -85,16 +140,25 @@ class Real:
             return {'exc': 'CIMError', 'code': e.status_code}
         return {'exc': type(e).__name__}
 
-    def result(self, r, kind):
+    def result(self, r, kind, opening=False):
         objs = r.paths if kind == 'paths' else r.instances
         ctx = None
+        res = {}
         if r.context is not None:
             cs = r.context[0]
-            if cs not in self.ctxmap:
-                self.ctxmap[cs] = len(self.ctxmap)
+            if opening:
+                # every Open that returns a context starts a NEW session: fresh model id, even when the server
+                # hands out a context string it has used before (which the property forbids: see the oracle)
+                if cs in self.ctxmap:
+                    res['reused_context_of'] = self.ctxmap[cs]
+                self.ctxmap[cs] = self.nctx
+                self.ctx_real[self.nctx] = r.context
+                self.nctx += 1
+            elif cs not in self.ctxmap:
+                self.ctxmap[cs] = 1000 + len(self.ctxmap)     # a pull answered with a context nobody opened
             ctx = self.ctxmap[cs]
-            self.ctx_real[ctx] = r.context
-        return {'ok': {'objs': [self.oid(o) for o in objs], 'eos': bool(r.eos), 'ctx': ctx}}
+        res.update({'objs': [self.oid(o) for o in objs], 'eos': bool(r.eos), 'ctx': ctx})
+        return {'ok': res}
 
     def step(self, op):
         import pywbem
@@ -105,12 +169,13 @@ class Real:
                 kw = {}
                 if op['max'] is not None or op.get('passnone'):
                     kw['MaxObjectCount'] = op['max']
+                kw.update(op.get('args') or {})
                 if op['src'] is None:
                     r = getattr(c, op['method'])('TST_P', namespace=ns, **kw)
                 else:
                     p = pywbem.CIMInstanceName('TST_P', keybindings={'name': op['src']}, namespace=ns)
                     r = getattr(c, op['method'])(p, **kw)
-                return self.result(r, op['kind'])
+                return self.result(r, op['kind'], opening=True)
             if op['op'] == 'pull':
                 ctx = self.ctx_real.get(op['ctx']) if op['ctx'] is not None else None
                 if op['ctx'] is not None and ctx is None:
@@ -149,7 +214,10 @@ class Real:
 
 def gen_history(rng, thorough):
     """one history: repository sizes + an op list mixing sessions"""
-    n_per_ns = {NSS[0]: rng.choice([0, 1, 2, 3, 5, 8, 13] if not thorough else [0, 1, 2, 3, 5, 8, 13, 21, 120]),
+    # result sets around the server default batch size (DEFAULT_MAX_OBJECT_COUNT = 100, used when the Open passes
+    # no MaxObjectCount) in ~4 % of the histories, small ones otherwise
+    big = rng.random() < (0.04 if not thorough else 0.06)
+    n_per_ns = {NSS[0]: rng.choice([99, 101, 102, 150, 230] if big else [0, 1, 2, 3, 5, 8, 13, 21]),
                 NSS[1]: rng.choice([0, 2, 4, 7])}
     ops = []
     nops = rng.randint(3, 18)
@@ -161,8 +229,11 @@ def gen_history(rng, thorough):
             method, kind, trad, needs_src = rng.choice(OPENS)
             nsi = rng.choice([0, 0, 0, 1, 1, 2])
             mx = rng.choice([None, None, 0, 1, 1, 2, 3, 5, 100, 1000, -1])
+            if big and rng.random() < 0.6:
+                mx = None
             ops.append({'op': 'open', 'method': method, 'kind': kind, 'trad': trad, 'ns': nsi,
-                        'src': 'p0' if needs_src else None, 'max': mx, 'passnone': rng.random() < 0.5})
+                        'src': 'p0' if needs_src else None, 'max': mx, 'passnone': rng.random() < 0.5,
+                        'args': gen_args(rng, method)})
             opened += 1
         elif r < 0.80:
             kind = rng.choice(['withPath', 'paths', 'insts'])
@@ -191,7 +262,7 @@ def execute(n_per_ns, ops, rng):
             objs = []
             if nsi < len(NSS) and NSS[nsi] in real.conn.namespaces:
                 try:
-                    objs = real.traditional(op['trad'], NSS[nsi], op['src'])
+                    objs = real.traditional(op['trad'], NSS[nsi], op['src'], op.get('args'))
                 except Exception:
                     objs = []
             out = real.step(op)
@@ -228,6 +299,12 @@ def oracle(run, model_ops, outs, n_open, case):
         if op['op'] == 'open' and 'ok' in out:
             r = out['ok']
             mx = op['max']
+            if 'reused_context_of' in r:
+                # the server handed out a context string it has used before: the older session's context is then
+                # accepted again after its eos/close (or, if still live, the two sessions share one entry)
+                old = sess.get(r['reused_context_of'])
+                run.violate({'kind': 'context_id_reused', 'older_session_state': old['st'] if old else 'unknown'},
+                            case, out)
             if mx is not None and len(r['objs']) > mx:
                 run.violate({'kind': 'batch_exceeds_max', 'op': 'open'}, case, out)
             if r['eos']:
@@ -288,10 +365,13 @@ def oracle(run, model_ops, outs, n_open, case):
 
 def run(run):
     rng = run.rng
-    n = 20000 if run.thorough else 3000
+    n = 30000 if run.thorough else 6000
     run.rule = ('seeded random operation histories (3..18 ops: 6 Open ops + OpenQueryInstances probe, 3 Pull kinds, Close, '
                 'disable toggles, namespace removal; MaxObjectCount from {None,0,1,2,3,5,100,1000,negative}; result sets '
-                '0..13 (thorough: ..120) objects; stale/foreign/None contexts); a case is non-trivial when at least one '
+                '0..21 objects and, in ~4 % of the histories, 99..230 (around the server default batch of 100 used when '
+                'the Open passes no MaxObjectCount); filter arguments Role/ResultRole/AssocClass/ResultClass/'
+                'DeepInheritance/PropertyList passed alike to the Open and the traditional operation; delivered objects '
+                'compared by path AND content; stale/foreign/None contexts); a case is non-trivial when at least one '
                 'pull delivered objects; distinct = distinct (sizes, op list) JSON')
     run.assumptions += ['uuid4 context ids never repeat (model: counter)',
                         'result set handed to the model = the traditional operation run on the same real connection']
